@@ -373,7 +373,7 @@ def generate(u, repo, specs_dir, twin_of=None, extra="", prelets=None, inline=No
     for idx, it in enumerate(u["items"]):
         item = rsx.extract(repo, it["relpath"], it["steps"])
         if inline:
-            item.inline_helpers(repo, inline)
+            item.inline_helpers(repo, inline, it["steps"])
         contracted = apply_edits(item, it["edits"], twin_false=(twin_of == idx), prelets=(prelets or {}).get(idx))
         item.normalise_wild_closure_params()
         cur = "".join(out)
